@@ -507,3 +507,37 @@ pub fn parse_probe(src: &str) -> String {
 pub fn literal_verdict(kind: char, text: &str, start: usize) -> String {
     parse_probe_impl::literal(kind, text, start)
 }
+
+/// Like [`literal_verdict`], but for a STRING literal token whose decoding
+/// fails with an escape error the location is given as the escaper's own
+/// range, relative to the content between the quotes, computed here from
+/// `rustc_literal_escaper` directly — independent of the arithmetic
+/// `unescape_str` / `simple_literal` do on it: `<Kind>:rel:<a>:<b>`.
+/// Everything else is `literal_verdict`'s answer.
+pub fn literal_verdict_rel(kind: char, text: &str, start: usize) -> String {
+    let v = literal_verdict(kind, text, start);
+    if kind != 'L'
+        || !v.starts_with("Custom:")
+        || !text.starts_with('"')
+        || !text.ends_with('"')
+        || text.len() < 2
+    {
+        return v;
+    }
+    let content = &text[1..text.len() - 1];
+    let mut first: Option<(usize, usize)> = None;
+    rustc_literal_escaper::unescape_str(
+        content,
+        |range: std::ops::Range<usize>, res| {
+            if let Err(e) = res {
+                if e.is_fatal() && first.is_none() {
+                    first = Some((range.start, range.end));
+                }
+            }
+        },
+    );
+    match first {
+        Some((a, b)) => format!("Custom:rel:{a}:{b}"),
+        None => v,
+    }
+}
